@@ -30,6 +30,11 @@ fn lens(state: &ParseState) -> (usize, usize, usize, usize, usize) {
 }
 
 fn unknown_noop(pos: Pos) {
+	unknown_noop_pick(pos, true);
+	unknown_noop_pick(pos, false);
+}
+
+fn unknown_noop_pick(pos: Pos, pick: bool) {
 	let v = Version(3, 16, 0);
 	let mut state = free_state(v);
 	let a: i32 = kani::any();
@@ -68,8 +73,9 @@ fn unknown_noop(pos: Pos) {
 	let end_before = state.end().is_some();
 
 	// the unknown event: one of the two codes the table declares, arbitrary payload
+	// (the code is concrete per call: a symbolic code makes the declared size, and with it the
+	// payload buffer's length, symbolic - 10 GB)
 	let mut ev: [u8; 9] = kani::any();
-	let pick: bool = kani::any();
 	let (code, size) = if pick { (UNKNOWN_A, 1usize) } else { (UNKNOWN_B, 8usize) };
 	ev[0] = code;
 	let res = parse_event(&ev[..1 + size], &mut state, None);
@@ -87,15 +93,13 @@ fn unknown_noop(pos: Pos) {
 	assert!(state.end().is_some() == end_before);
 	assert!(state.gecko_codes().is_none());
 	assert!(state.metadata().is_none());
-	kani::cover!(pick, "1-byte unknown event");
-	kani::cover!(!pick, "8-byte unknown event");
 	forget(res);
 	forget(state);
 }
 
 // @verif property=C08 tier=quick mem=12 timeout=1800
 // @encodes peppi::io::slippi::de::parse_event (unknown-code path) after Frame Start + Item of an open frame
-// @symbolic 530 frame id, payloads of the preceding events, unknown event's code (one of two declared) and payload
+// @symbolic 530 frame id, payloads of the preceding events, unknown event's payload (both declared codes, one call each)
 // @bound port-free 3.16 state; position: inside an open frame; one unknown event; declared sizes 1 and 8
 // @stub alloc::fmt::format = returns an empty String
 // @stub std::hash::RandomState::new = fixed keys
@@ -106,11 +110,12 @@ fn unknown_noop(pos: Pos) {
 #[kani::stub(std::hash::RandomState::new, random_state_stub)]
 fn c08_unknown_noop_inside_frame() {
 	unknown_noop(Pos::InsideOpenFrame);
+	kani::cover!(true, "reached");
 }
 
 // @verif property=C08 tier=quick mem=12 timeout=1800
 // @encodes peppi::io::slippi::de::parse_event (unknown-code path) before any frame
-// @symbolic 65 unknown event's code and payload
+// @symbolic 72 unknown events' payloads (both declared codes, one call each)
 // @bound port-free 3.16 state; position: directly after Game Start
 // @stub alloc::fmt::format = returns an empty String
 // @stub std::hash::RandomState::new = fixed keys
@@ -121,6 +126,7 @@ fn c08_unknown_noop_inside_frame() {
 #[kani::stub(std::hash::RandomState::new, random_state_stub)]
 fn c08_unknown_noop_before_frames() {
 	unknown_noop(Pos::BeforeAnyFrame);
+	kani::cover!(true, "reached");
 }
 
 // @verif property=C08 tier=thorough mem=12 timeout=1800
@@ -136,6 +142,7 @@ fn c08_unknown_noop_before_frames() {
 #[kani::stub(std::hash::RandomState::new, random_state_stub)]
 fn c08_unknown_noop_between_frames() {
 	unknown_noop(Pos::BetweenFrames);
+	kani::cover!(true, "reached");
 }
 
 // @verif property=C08 tier=thorough mem=12 timeout=1800
@@ -151,6 +158,7 @@ fn c08_unknown_noop_between_frames() {
 #[kani::stub(std::hash::RandomState::new, random_state_stub)]
 fn c08_unknown_noop_after_end() {
 	unknown_noop(Pos::AfterGameEnd);
+	kani::cover!(true, "reached");
 }
 
 // @verif property=C12,C01:thorough,C17:thorough tier=quick mem=12 timeout=1800
@@ -255,11 +263,11 @@ fn c12_frag_parse_start() {
 	forget(res);
 }
 
-// @verif property=C08,C12:thorough tier=quick mem=16 timeout=2400
+// @verif property=C08,C12:thorough tier=quick mem=24 timeout=2400
 // @encodes peppi::io::slippi::de::parse_event + handle_splitter_event: an unknown event between the two chunks of a split Gecko-code message
 // @symbolic 8300 both 512-byte chunks, their size fields, the unknown event's payload
 // @bound two splitter blocks (first not final, second final, wrapped code 0x3D) with one unknown 8-byte event in between; port-free 3.16 state
-// @assume chunk size fields <= 512
+// @assume chunk size fields concrete (512 and 88)
 // @stub alloc::fmt::format = returns an empty String
 // @stub std::hash::RandomState::new = fixed keys
 // @cbmc --max-field-sensitivity-array-size 1100
@@ -275,8 +283,9 @@ fn c08_unknown_between_splitter_chunks() {
 	let mut state = ParseState::verif_from_parts(t, 0, mk_start(v), frames, [0; 4]);
 	let mut c1: [u8; 517] = kani::any();
 	c1[0] = 0x10;
-	let a1 = u16::from_be_bytes([c1[513], c1[514]]);
-	kani::assume(a1 <= 512);
+	c1[513] = 2;
+	c1[514] = 0; // first chunk completely full (512)
+	let a1 = 512u16;
 	c1[515] = 0x3D;
 	c1[516] = 0;
 	let r1 = parse_event(&c1[..], &mut state, None);
@@ -294,8 +303,9 @@ fn c08_unknown_between_splitter_chunks() {
 	}
 	let mut c2: [u8; 517] = kani::any();
 	c2[0] = 0x10;
-	let a2 = u16::from_be_bytes([c2[513], c2[514]]);
-	kani::assume(a2 <= 512);
+	c2[513] = 0;
+	c2[514] = 88;
+	let a2 = 88u16;
 	c2[515] = 0x3D;
 	c2[516] = 1;
 	let r2 = parse_event(&c2[..], &mut state, None);
@@ -316,9 +326,90 @@ fn c08_unknown_between_splitter_chunks() {
 		}
 		None => assert!(false),
 	}
-	kani::cover!(a1 == 512 && a2 == 88, "full first chunk");
+	kani::cover!(true, "reached");
 	forget(r1);
 	forget(ru);
 	forget(r2);
+	forget(state);
+}
+
+// @verif property=C13,C12 tier=thorough mem=16 timeout=3000
+// @encodes impl game::Game for ParseState (frame(), len()), mutable::Frame::transpose_one incl. the per-frame item slice
+// @symbolic 1200 two frame ids, start/item/end payloads, row index
+// @bound port-free 3.16 state; two frame rows with 2 and 1 items; symbolic row index
+// @stub alloc::fmt::format = returns an empty String
+// @stub std::hash::RandomState::new = fixed keys
+// @cbmc --max-field-sensitivity-array-size 512
+#[kani::proof]
+#[kani::unwind(10)]
+#[kani::stub(alloc::fmt::format, format_stub)]
+#[kani::stub(std::hash::RandomState::new, random_state_stub)]
+fn c13_frame_row_view_free() {
+	let v = Version(3, 16, 0);
+	let mut state = free_state(v);
+	let ids: [i32; 2] = kani::any();
+	let counts = [2usize, 1usize];
+	let mut row = 0;
+	while row < 2 {
+		let mut s0: [u8; 13] = kani::any();
+		s0[0] = 0x3A;
+		put_id(&mut s0, ids[row]);
+		let r = parse_event(&s0[..], &mut state, None);
+		assert!(r.is_ok());
+		forget(r);
+		let mut k = 0;
+		while k < counts[row] {
+			let mut i0: [u8; 45] = kani::any();
+			i0[0] = 0x3B;
+			put_id(&mut i0, ids[row]);
+			let r = parse_event(&i0[..], &mut state, None);
+			assert!(r.is_ok());
+			forget(r);
+			k += 1;
+		}
+		let mut e0: [u8; 9] = kani::any();
+		e0[0] = 0x3C;
+		put_id(&mut e0, ids[row]);
+		let r = parse_event(&e0[..], &mut state, None);
+		assert!(r.is_ok());
+		forget(r);
+		row += 1;
+	}
+	assert!(state.len() == 2);
+	let i: usize = kani::any();
+	kani::assume(i < 2);
+	let t = state.frame(i);
+	let f = state.frames();
+	assert!(t.id == ids[i]);
+	assert!(t.ports.len() == 0);
+	match (&t.start, f.start.as_ref()) {
+		(Some(ts), Some(cs)) => {
+			assert!(ts.random_seed == cs.random_seed.values()[i]);
+			assert!(ts.scene_frame_counter == cs.scene_frame_counter.as_ref().map(|c| c.values()[i]));
+		}
+		_ => assert!(false),
+	}
+	match (&t.end, f.end.as_ref()) {
+		(Some(te), Some(ce)) => assert!(te.latest_finalized_frame == ce.latest_finalized_frame.as_ref().map(|c| c.values()[i])),
+		_ => assert!(false),
+	}
+	// items of the row = the slice delimited by that row's offsets
+	let first = if i == 0 { 0 } else { 2 };
+	match (&t.items, f.item.as_ref()) {
+		(Some(items), Some(col)) => {
+			assert!(items.len() == counts[i]);
+			let j: usize = kani::any();
+			kani::assume(j < items.len());
+			assert!(items[j].id == col.id.values()[first + j]);
+			assert!(items[j].r#type == col.r#type.values()[first + j]);
+			assert!(items[j].velocity.y.to_bits() == col.velocity.y.values()[first + j].to_bits());
+			assert!(items[j].velocity.x.to_bits() == col.velocity.x.values()[first + j].to_bits());
+			assert!(items[j].instance_id == col.instance_id.as_ref().map(|c| c.values()[first + j]));
+		}
+		_ => assert!(false),
+	}
+	kani::cover!(i == 1, "second row");
+	kani::cover!(i == 0, "first row");
+	forget(t);
 	forget(state);
 }
